@@ -220,7 +220,7 @@ def explore_decode(r, combined, claim, data_len=8):
         ex.hooks.update(st.hooks())
         ex.contracts.update(st.contracts())
         return ex._run_body(info, [st.pgn, st.prio, st.src, st.dst, st.ts, st.can, st.raw, combined], {}, st.decoder)
-    results = explore(r, run, contracts={}, inline={'nmea2000.decoder.NMEA2000Decoder._call_decode_function'}, hooks={})
+    results = explore(r, run, contracts={}, inline={'nmea2000.decoder.NMEA2000Decoder._call_decode_function', 'decoder.*'}, hooks={})
     return info, results
 
 
@@ -260,6 +260,8 @@ class DecodeTask(Task):
                 g = goal if isinstance(goal, z3.ExprRef) else (z3.BoolVal(goal) if isinstance(goal, bool) else bool_term(goal))
                 obs.append(Obligation(f'{base}/{name}/path[{pi}]', hyps, g, kind='ensures', func=info.fullname, inputs=st.inputs,
                                       meta={'note': note, 'scenario': scenario or name, 'prop': self.prop}))
+            if p.kind == 'raise' and not (p.exc_name() == 'ValueError' and 'field decoder rejected' in str((p.value.attrs.get('args') or [''])[0])):
+                add('no-exception-of-its-own', False, f'_decode raises {p.exc_name()}: {str((p.value.attrs.get("args") or [""])[0])[:80]}', 'exception')
             build = {'C10': obligations_c10, 'C11': obligations_c11, 'C15': obligations_c15, 'C16': obligations_c16, 'C08': obligations_c08}[self.prop]
             build(self, p, st, add)
         for ob in obs:
@@ -441,3 +443,134 @@ def obligations_c08(task, p, st, add):
     for (pgn, di) in st.decode_calls:
         add('decode-function-of-this-pgn-gets-the-payload-integer', vand(veq(pgn, st.pgn), veq(di, data_int)), scenario='dispatch')
     add('at-most-one-decode-call', len(st.decode_calls) <= 1)
+
+
+# ---------------------------------------------------------------------------------------------
+# the constructor: filter collections, claim flag, ownership of the arguments
+# ---------------------------------------------------------------------------------------------
+class InitTask(Task):
+    """NMEA2000Decoder.__init__ for small argument shapes (list lengths <= 2, elements symbolic ints / ids, with and
+    without the address-claim PGN by number and by id in mixed case).  Loops are unrolled: bounded in the list length."""
+    def __init__(self, prop, which, shape):
+        self.prop = prop
+        self.which = which          # 'exclude' | 'include'
+        self.shape = shape          # tuple of element kinds: 'int', 'id', 'claim-number', 'claim-id'
+        self.name = f'{prop}:__init__[{which}={",".join(shape) or "empty"}]'
+
+    def run(self, tier):
+        out = {'results': [], 'functions': [], 'notes': [], 'bounded': []}
+        r = repo()
+        info = r.func(DEC + '__init__')
+        out['functions'].append(info.describe())
+        base = f'{self.prop}/{DEC}__init__[{self.which}:{",".join(self.shape) or "empty"}]'
+
+        def elems(ex):
+            xs = []
+            for i, k in enumerate(self.shape):
+                if k == 'int':
+                    xs.append(ex.fresh(f'arg{i}', lo=0, hi=(1 << 18) - 1))
+                elif k == 'id':
+                    xs.append(SStr([Atom(f'arg{i}')]))
+                elif k == 'claim-number':
+                    xs.append(CLAIM)
+                else:
+                    xs.append('IsoAddressClaim')
+            return xs
+
+        def run(ex):
+            g = ex.ghost
+            lst = elems(ex)
+            g['lst'] = lst
+            g['orig'] = list(lst)
+            other = []
+            g['other'] = other
+            g['mx'] = [SStr([Atom('mfr_excl')])]
+            g['mi'] = []
+            g['prefs'] = {}
+            g['dump'] = [ex.fresh('dump0', lo=0), SStr([Atom('dump1')])]
+            g['dump_orig'] = list(g['dump'])
+            dec = Obj(r.cls('decoder', 'NMEA2000Decoder'), {})
+            g['dec'] = dec
+            kw = {'exclude_pgns': lst if self.which == 'exclude' else other, 'include_pgns': lst if self.which == 'include' else other,
+                  'exclude_manufacturer_code': g['mx'], 'include_manufacturer_code': g['mi'], 'preferred_units': g['prefs'], 'dump_to_file': None,
+                  'dump_pgns': g['dump'], 'build_network_map': ex.fresh('bnm', 'bool')}
+            for a in str_axioms():
+                ex.assume(a)
+            return ex._run_body(info, [], kw, dec)
+        try:
+            results = explore(r, run, contracts={}, inline={'nmea2000.decoder.NMEA2000Decoder.split_pgn_list', 'decoder.*'})
+        except V.Unsupported as u:
+            out['error'] = f'__init__: outside the modelled subset: {u}'
+            return out
+        obs = []
+        for pi, p in enumerate(results):
+            g = p.ex.ghost
+            hyps = list(p.pc)
+
+            def add(name, goal, note=''):
+                gl = goal if isinstance(goal, z3.ExprRef) else (z3.BoolVal(goal) if isinstance(goal, bool) else bool_term(goal))
+                obs.append(Obligation(f'{base}/{name}/path[{pi}]', hyps, gl, kind='ensures', func=info.fullname, inputs={}, meta={'note': note, 'scenario': 'init', 'prop': self.prop}))
+            if p.kind == 'raise':
+                add('constructor-accepts-well-formed-lists', False, f'raises {p.exc_name()}')
+                continue
+            dec = g['dec']
+            a = dec.attrs
+            lst, orig = g['lst'], g['orig']
+            # ownership: arguments are neither stored nor modified
+            add('argument-lists-not-modified', len(lst) == len(orig) and all(x is y for x, y in zip(lst, orig)) and g['other'] == [] and len(g['dump']) == 2 and g['mi'] == [] and g['prefs'] == {},
+                'the constructor modified one of its argument lists (shared default arguments!)')
+            stored = [k for k, v in a.items() if any(v is o for o in (lst, g['other'], g['mx'], g['mi'], g['prefs'], g['dump']))]
+            add('argument-objects-not-stored', not stored, f'stored by reference: {stored}')
+            ints = [x for x in orig if isinstance(x, int) or (isinstance(x, Sym) and x.ty == 'int')]
+            ids = [x for x in orig if isinstance(x, (str, SStr))]
+            lows = [x.lower() if isinstance(x, str) else SStr([Atom(x.parts[0].name, True, x.parts[0].term)]) for x in ids]
+            pre, preid = ('exclude_pgns', 'exclude_pgns_ids') if self.which == 'exclude' else ('include_pgns', 'include_pgns_ids')
+            opp, oppid = ('include_pgns', 'include_pgns_ids') if self.which == 'exclude' else ('exclude_pgns', 'exclude_pgns_ids')
+            add('other-lists-empty', a.get(opp) == [] and a.get(oppid) == [])
+            # claim flag <=> address claims are not permitted by the user's lists
+            has_claim_num = vor(*[veq(x, CLAIM) for x in ints]) if ints else False
+            has_claim_id = vor(*[SStr.eq(None, x, CLAIM_ID_LOWER) for x in lows]) if lows else False
+            if self.which == 'exclude':
+                not_permitted = vor(has_claim_num, has_claim_id)
+            else:
+                not_permitted = vand(len(orig) > 0, vnot(has_claim_num), vnot(has_claim_id))
+            icf = a.get('iso_claim_filter')
+            icf_b = icf if isinstance(icf, (bool, Sym)) else p.ex.truth(icf) if icf is not None else False
+            add('claim-flag-iff-address-claims-not-permitted', veq(bool(icf_b) if not isinstance(icf_b, Sym) else icf_b, not_permitted),
+                f'iso_claim_filter={icf!r}')
+            # the number / id collections hold exactly the user's entries (ids lower-cased); the claim is taken out of the exclude lists when flagged
+            got_n, got_i = a.get(pre), a.get(preid)
+            ok_shape = isinstance(got_n, list) and isinstance(got_i, list)
+            add('collections-are-lists', ok_shape)
+            if ok_shape:
+                def member(x, xs):
+                    return vor(*[veq(x, y) if not isinstance(x, (str, SStr)) else SStr.eq(None, x, y) for y in xs]) if xs else False
+                for x in ints:
+                    keep = vnot(veq(x, CLAIM)) if self.which == 'exclude' else True
+                    add('number-kept', vor(vnot(keep), member(x, got_n)))
+                for x in got_n:
+                    add('no-extra-number', member(x, ints))
+                for x in lows:
+                    keep = vnot(SStr.eq(None, x, CLAIM_ID_LOWER)) if self.which == 'exclude' else True
+                    add('id-kept-lower-cased', vor(vnot(keep), member(x, got_i)))
+                for x in got_i:
+                    add('no-extra-id', member(x, lows))
+                if self.which == 'exclude':
+                    add('claim-not-left-in-the-exclude-lists', vand(vnot(member(CLAIM, got_n)), vnot(member(CLAIM_ID_LOWER, got_i))))
+            fresh_ok = isinstance(a.get('data'), dict) and a['data'] == {} and isinstance(a.get('source_to_iso_name'), dict) and a['source_to_iso_name'] == {}
+            add('per-instance-state-is-fresh', fresh_ok)
+        for ob in obs:
+            res = discharge(ob, budget(tier))
+            dct = result_dict(res, with_size=False)
+            dct['function'] = info.fullname
+            if res.status == 'refuted':
+                dct['reason'] = ob.meta.get('note', '')
+                from contracts.decoder_scenarios import replay_for
+                dct['replay'] = replay_for(self.prop, 'init', res.model or {})
+            out['results'].append(dct)
+        return out
+
+
+def init_tasks(prop):
+    shapes = [(), ('int',), ('id',), ('claim-number',), ('claim-id',), ('int', 'id'), ('id', 'claim-id'), ('int', 'claim-number'), ('claim-number', 'claim-id'), ('id', 'id'), ('int', 'int')]
+    return [InitTask(prop, w, s) for w in ('exclude', 'include') for s in shapes]
